@@ -566,6 +566,24 @@ fn run_iter(src: &str) -> String {
     }
 }
 
+// Display of the tree and Display/Debug of the evaluation result, as hex (the formatting code is modelled too)
+fn run_show(src: &str) -> String {
+    let mut ctx = Ctx::new();
+    ctx.set_value("a".into(), Value::Int(3)).unwrap();
+    ctx.set_value("b".into(), Value::Float(2.5)).unwrap();
+    ctx.set_value("c".into(), Value::String("x\"y".into())).unwrap();
+    ctx.set_value("y".into(), Value::Tuple(vec![Value::Int(1), Value::Float(1e300), Value::String("ä\n".into()), Value::Empty, Value::Boolean(true)])).unwrap();
+    let tree = match build_operator_tree::<DefaultNumericTypes>(src) {
+        Ok(n) => format!("T:{}", hex(format!("{}", n))),
+        Err(e) => format!("TE:{}", hex(format!("{}", e))),
+    };
+    let res = match eval_with_context_mut(src, &mut ctx) {
+        Ok(v) => format!("V:{} D:{}", hex(format!("{}", v)), hex(format!("{:?}", v))),
+        Err(e) => format!("E:{}", hex(format!("{}", e))),
+    };
+    format!("{} {}", tree, res)
+}
+
 fn run_case(line: &str) -> String {
     let f: Vec<&str> = line.split('\t').collect();
     let id = f[0];
@@ -595,6 +613,7 @@ fn run_case(line: &str) -> String {
         },
         "SCRIPT" => run_script(f[2], f.get(3).copied().unwrap_or("")),
         "ITER" => run_iter(&unhex(f[2])),
+        "SHOW" => run_show(&unhex(f.get(2).copied().unwrap_or(""))),
         #[cfg(feature = "serde")]
         "SERDEN" => serde_cases::node_case(&unhex(f[2])),
         #[cfg(feature = "serde")]
